@@ -198,7 +198,7 @@ func GHASH(H []byte, A []byte, C []byte) (X []byte) {
 func GetY0(H, IV []byte) []byte {
 	if len(IV)*8 == 96 {
 		zero31one1 := []byte{0x00, 0x00, 0x00, 0x01}
-		IV = append(IV, zero31one1...)
+		IV = append(IV[:len(IV):len(IV)], zero31one1...)
 		return IV
 	} else {
 		return GHASH(H, []byte{}, IV)
